@@ -441,7 +441,7 @@ impl Property for C15 {
             rule: "per sampled conversation (generated system x engine {BMC joint/individual, PDR with/without cores} x 4 solver profiles): a fault-free twin run records its response-bearing points (check-sat, check-sat-assuming, get-value, get-unsat-assumptions); then every point (all if <= 48, else the first 48 + 16 sampled) x every lossy fault kind {error reply (real z3/cvc5/bitwuzla/yices messages, synthetic lengths 0..4096, inner quotes/parentheses/newlines; solver survives or dies), unknown, blank line, silent EOF, truncated reply + exit, exit before/after reading the command, exit right after a correct reply, garbage (closed forms, or open forms followed by exit)} is replayed as a run with exactly that one fault, plus exits at sampled command points and spawn failures of start/restart. Benign perturbations (short read/write, EINTR, exit-visibility lag) are on in every run. exhaustive is per conversation (probe conversation_fully_enumerated), not for the property. Distinct by (conversation shape, fault).".into(),
             assumptions: vec![
                 "a stalled-but-alive solver and a lying solver (well-formed wrong answers, doubled replies) are outside the fault model; garbage that a conforming client could take for a legal answer is filtered".into(),
-                "hangs are detected as: read with no owed response from a live solver (deadlock), > 64 consecutive reads at EOF or > 3,000,000 transport events (livelock)".into(),
+                "hangs are detected as: read with no owed response from a live solver (deadlock), > 64 consecutive reads at EOF or > 1,200,000 (quick) / 6,000,000 (thorough) transport events (livelock)".into(),
             ],
             real_components: vec!["SmtLibSolverCtx (write_cmd, read_response, BrokenPipe branch, try_wait, restart, Drop)", "smt::parser (responses)", "mc::bmc", "mc::pdr", "btor2::parse_str"],
             stub_components: vec!["solver process (RefSolver + fault injector)", "pipes and process table (transport)"],
